@@ -127,4 +127,177 @@ theorem lastP_mem {p : Char → Bool} {s : Str} (h : lastP p s = true) : ∃ a c
       obtain ⟨a, c, e, hc⟩ := ih (by simpa [lastP] using h)
       exact ⟨x :: a, c, by simp [e], hc⟩
 
+/-! ### blank strings, `strip`, `lstrip`, `rstrip` -/
+
+theorem isBlank_cons (c : Char) (l : Str) : isBlank (c :: l) = (isSpace c && isBlank l) := by
+  simp [isBlank]
+
+theorem rstrip_eq_nil_iff (l : Str) : rstrip l = [] ↔ isBlank l = true := by
+  induction l with
+  | nil => simp [rstrip, isBlank]
+  | cons c cs ih =>
+    simp only [rstrip, isBlank_cons]
+    cases h : rstrip cs with
+    | nil =>
+      have := ih.mp h
+      by_cases hc : isSpace c = true <;> simp [hc, this]
+    | cons d ds =>
+      have : isBlank cs = false := by
+        cases hb : isBlank cs with
+        | false => rfl
+        | true => have := ih.mpr hb; rw [h] at this; cases this
+      simp [this]
+
+theorem rstrip_cons_of_nonblank (c : Char) (cs : Str) (h : isBlank (c :: cs) = false) :
+    rstrip (c :: cs) = c :: rstrip cs := by
+  rw [isBlank_cons] at h
+  simp only [rstrip]
+  cases hr : rstrip cs with
+  | nil =>
+    have hb := (rstrip_eq_nil_iff cs).mp hr
+    have : isSpace c = false := by simpa [hb] using h
+    simp [this]
+  | cons d ds => rfl
+
+theorem rstrip_idem (l : Str) : rstrip (rstrip l) = rstrip l := by
+  induction l with
+  | nil => simp [rstrip]
+  | cons c cs ih =>
+    simp only [rstrip]
+    cases hr : rstrip cs with
+    | nil =>
+      by_cases hc : isSpace c = true
+      · simp [hc, rstrip]
+      · simp [hc, rstrip]
+    | cons d ds =>
+      rw [hr] at ih
+      show rstrip (c :: d :: ds) = c :: d :: ds
+      rw [rstrip, ih]
+
+
+theorem lstrip_cons_nonspace (c : Char) (cs : Str) (h : isSpace c = false) : lstrip (c :: cs) = c :: cs := by
+  simp [lstrip, h]
+
+theorem rstrip_subset (l : Str) : ∀ c ∈ rstrip l, c ∈ l := by
+  induction l with
+  | nil => intro c hc; simp [rstrip] at hc
+  | cons a as ih =>
+    intro c hc
+    simp only [rstrip] at hc
+    cases hr : rstrip as with
+    | nil =>
+      rw [hr] at hc
+      by_cases ha : isSpace a = true
+      · simp [ha] at hc
+      · simp [ha] at hc; simp [hc]
+    | cons d ds =>
+      rw [hr] at hc
+      simp only [List.mem_cons] at hc ⊢
+      rcases hc with rfl | hc
+      · exact Or.inl rfl
+      · exact Or.inr (ih c (by rw [hr]; simpa using hc))
+
+theorem lstrip_subset (l : Str) : ∀ c ∈ lstrip l, c ∈ l := by
+  induction l with
+  | nil => intro c hc; simp [lstrip] at hc
+  | cons a as ih =>
+    intro c hc
+    simp only [lstrip] at hc
+    split at hc
+    · exact List.mem_cons_of_mem _ (ih c hc)
+    · exact hc
+
+theorem lstrip_head (l : Str) : headP isSpace (lstrip l) = false := by
+  induction l with
+  | nil => rfl
+  | cons a as ih =>
+    simp only [lstrip]
+    split
+    · exact ih
+    · rename_i h; simpa [headP] using h
+
+theorem rstrip_head {l : Str} (h : headP isSpace l = false) : headP isSpace (rstrip l) = false := by
+  cases l with
+  | nil => rfl
+  | cons a as =>
+    simp only [rstrip]
+    cases rstrip as with
+    | nil => simp only [headP] at h; simp [h, headP]
+    | cons d ds => simpa [headP] using h
+
+theorem strip_head (l : Str) : headP isSpace (strip l) = false := rstrip_head (lstrip_head l)
+
+theorem lstrip_of_head {l : Str} (h : headP isSpace l = false) : lstrip l = l := by
+  cases l with
+  | nil => rfl
+  | cons a as => simp only [headP] at h; simp [lstrip, h]
+
+theorem isBlank_of_head {l : Str} (h : headP isSpace l = false) (hne : l ≠ []) : isBlank l = false := by
+  cases l with
+  | nil => exact absurd rfl hne
+  | cons a as => simp only [headP] at h; simp [isBlank, h]
+
+theorem lstrip_rstrip_comm (l : Str) : lstrip (rstrip l) = rstrip (lstrip l) := by
+  induction l with
+  | nil => rfl
+  | cons a as ih =>
+    by_cases ha : isSpace a = true
+    · simp only [lstrip, ha, if_true, rstrip]
+      cases hr : rstrip as with
+      | nil => rw [hr] at ih; simp [lstrip, ← ih]
+      | cons d ds =>
+        rw [hr] at ih
+        show lstrip (a :: d :: ds) = _
+        rw [lstrip, if_pos ha, ih]
+    · have ha' : isSpace a = false := by simpa using ha
+      simp only [lstrip, ha', Bool.false_eq_true, if_false]
+      exact lstrip_of_head (rstrip_head (by simp [headP, ha']))
+
+theorem strip_rstrip (l : Str) : strip (rstrip l) = strip l := by
+  unfold strip; rw [lstrip_rstrip_comm, rstrip_idem]
+
+theorem isBlank_lstrip (l : Str) : isBlank (lstrip l) = isBlank l := by
+  induction l with
+  | nil => rfl
+  | cons a as ih =>
+    by_cases ha : isSpace a = true
+    · simp [lstrip, ha, isBlank_cons, ih]
+    · simp [lstrip, ha]
+
+theorem strip_ne_nil {l : Str} (h : isBlank l = false) : strip l ≠ [] := by
+  unfold strip
+  intro e
+  have := (rstrip_eq_nil_iff _).mp e
+  rw [isBlank_lstrip, h] at this
+  cases this
+
+theorem isBlank_append (a b : Str) : isBlank (a ++ b) = (isBlank a && isBlank b) := by
+  simp [isBlank, List.all_append]
+
+theorem rstrip_append_nonblank (a b : Str) (hb : isBlank b = false) : rstrip (a ++ b) = a ++ rstrip b := by
+  induction a with
+  | nil => rfl
+  | cons c cs ih =>
+    have : isBlank (c :: (cs ++ b)) = false := by rw [isBlank_cons, isBlank_append, hb]; simp
+    rw [List.cons_append, rstrip_cons_of_nonblank _ _ this, ih]; rfl
+
+theorem isBlank_rstrip {l : Str} (h : isBlank l = false) : isBlank (rstrip l) = false := by
+  cases hb : isBlank (rstrip l) with
+  | false => rfl
+  | true =>
+    have h1 := (rstrip_eq_nil_iff (rstrip l)).mpr hb
+    rw [rstrip_idem] at h1
+    have := (rstrip_eq_nil_iff l).mp h1
+    rw [h] at this; cases this
+
+
+theorem lstrip_append_nonblank (a b : Str) (ha : isBlank a = false) : lstrip (a ++ b) = lstrip a ++ b := by
+  induction a with
+  | nil => simp [isBlank] at ha
+  | cons c cs ih =>
+    by_cases hc : isSpace c = true
+    · have : isBlank cs = false := by rw [isBlank_cons, hc] at ha; simpa using ha
+      simp [lstrip, hc, ih this]
+    · simp [lstrip, hc]
+
 end Py
